@@ -221,6 +221,26 @@ def load_known():
 
 
 # ---------------------------------------------------------------- main
+def repo_state(pid):
+    """which source was checked: HEAD, dirtiness and the sha1 of the property's anchored files"""
+    st = dict(head=None, dirty=None, files={})
+    try:
+        st["head"] = subprocess.run(["git", "-C", REPO, "rev-parse", "--short", "HEAD"], capture_output=True,
+                                    text=True, timeout=30).stdout.strip()
+        st["dirty"] = bool(subprocess.run(["git", "-C", REPO, "status", "--porcelain", "--untracked-files=no"],
+                                          capture_output=True, text=True, timeout=30).stdout.strip())
+        for line in open(os.path.join(VERIF, "properties.jsonl")):
+            pr = json.loads(line)
+            if pr["id"] == pid:
+                for f in pr["anchors"]["files"]:
+                    fp = os.path.join(REPO, f)
+                    if os.path.exists(fp):
+                        st["files"][f] = hashlib.sha1(open(fp, "rb").read()).hexdigest()[:12]
+    except Exception as e:  # noqa: BLE001 - informational only
+        st["error"] = type(e).__name__
+    return st
+
+
 def write_replay(pid, payload):
     os.makedirs(os.path.join(VERIF, "replays"), exist_ok=True)
     blob = json.dumps(payload, indent=1, sort_keys=True, default=str)
@@ -434,6 +454,7 @@ def main():
             rule=spec.get("rule", ""), samples=samples,
             case_kinds=hist, stats=data.get("stats", {}),
             constants_source=const_src,
+            repo_state=repo_state(pid),
             coqchk_axioms=coqchk_axioms,
             known_findings_hit=sorted(known_hits),
             exhaustive=bool(data.get("exhaustive", False)),
